@@ -1,7 +1,8 @@
 """C10 — running server = restart from its disk: layout round-trip theorems + R-cache + twin-server comparison."""
 import json
 import seqprops, crashengine
-TRUSTED = ['hand transcription of inode/dirent/handle layouts (Model/Layout.v), tied on every cached inode (bytes = server Encode(), re-encoding reproduces them)',
+TRUSTED = ['IC (Model/IcacheModel.v) is a hand model of the cache protocol of fstxn, run against it (committed and cached encoding of every inode after every operation)',
+           'hand transcription of inode/dirent/handle layouts (Model/Layout.v), tied on every cached inode (bytes = server Encode(), re-encoding reproduces them)',
            'twin comparison walks both servers through the public NFS procedures only']
 ASSUMPTIONS = ['quiescent points: no RPC in flight, shrinker idle, unstable data committed before the comparison']
 
@@ -16,10 +17,21 @@ def run(ctx, ps, gen_bad):
     fails += f2
     cov['crash_images_with_post_recovery_calls'] = c2['evaluations']
     cov['evaluations'] += c2['evaluations']
+    # the inode cache under interleaved transactions (lock, edit in place, log, commit, abort), against the extracted IC:
+    # committed and cached encoding of every inode after every operation
+    import p_c13
+    f3, n3 = p_c13.model_diff(ctx, 'icmodel', 5 if ctx.quick else 150, 500 if ctx.quick else 1500)
+    fails += f3
+    cov['inode_cache_operations_compared_with_IC'] = n3
+    cov['evaluations'] += n3
     return fails, cov
 
 
 def replay(ctx, path):
-    if 'budget' in json.load(open(path)):
+    r = json.load(open(path))
+    if r.get('kind') == 'icmodel':
+        import p_c13
+        return p_c13.model_replay(ctx, r)
+    if 'budget' in r:
         return crashengine.replay(ctx, path)
     return seqprops.replay(ctx, path)
